@@ -113,7 +113,7 @@ def paths(model: Model, body: Callable[[Interp], Any], limit: int = 20000) -> Li
 def expr_stub(it: Interp, model: Model, result: Any, label: str = "expr") -> Inst:
     """An Expression whose evaluate(context) returns *result* (AV or callable)."""
     ci = model.cls("filter_expressions.Expression")
-    inst = it.new_inst(ci, label)
+    inst = it.harness_inst(ci, label)
     inst.attrs["token"] = it.new_opaque(f"{label}.token", model.cls("tokens.Token"))
     it.stubs[(inst.id, "evaluate")] = result
     return inst
@@ -121,7 +121,7 @@ def expr_stub(it: Interp, model: Model, result: Any, label: str = "expr") -> Ins
 
 def make_node(it: Interp, model: Model, value: Any, label: str = "node", location: Any = None, root: Any = None) -> Inst:
     ci = model.cls("node.JSONPathNode")
-    n = it.new_inst(ci, label)
+    n = it.harness_inst(ci, label)
     n.attrs["value"] = value
     n.attrs["location"] = location if location is not None else it.new_opaque(f"{label}.location")
     n.attrs["root"] = root if root is not None else it.new_sym(f"{label}.root")
@@ -130,7 +130,7 @@ def make_node(it: Interp, model: Model, value: Any, label: str = "node", locatio
 
 def make_nodelist(it: Interp, model: Model, nodes: List[Any], label: str = "nodes") -> Inst:
     ci = model.cls("node.JSONPathNodeList")
-    nl = it.new_inst(ci, label)
+    nl = it.harness_inst(ci, label)
     nl.seq = it.new_list(nodes)
     return nl
 
@@ -197,8 +197,15 @@ def describe(v: Any) -> Any:
 
 def real_env(it: Interp, model: Model, nondet: Any = None) -> Inst:
     """An environment built by interpreting JSONPathEnvironment.__init__ (registry, parser tables)."""
+    from . import effects
+
     ci = model.cls("environment.JSONPathEnvironment")
     env = it.instantiate(ci, [], {}, None)
+    # the environment may have compiled and evaluated any number of queries before the call under analysis:
+    # whatever a non-constructor method writes on it or on its parser is unknown
+    for obj, label in ((env, "env"), (env.attrs.get("parser"), "parser")):
+        if isinstance(obj, Inst):
+            it.havoc_written(obj, label)
     return env
 
 
@@ -207,7 +214,7 @@ def make_token(it: Interp, model: Model, type_name: str, value: Any = None, labe
     tt = model.cls("tokens.TokenType")
     if type_name not in tt.attrs:
         raise AnalysisError(f"anchor vanished: TokenType.{type_name}")
-    t = it.new_inst(tci, label)
+    t = it.harness_inst(tci, label)
     t.attrs["type_"] = EnumV(tt, type_name)
     t.attrs["value"] = value if value is not None else it.new_str(f"{label}.value")
     t.attrs["index"] = it.new_int(f"{label}.index", 0)
@@ -219,3 +226,29 @@ def make_token(it: Interp, model: Model, type_name: str, value: Any = None, labe
 def make_stream(it: Interp, model: Model, tokens: List[Any]) -> Inst:
     sci = model.cls("tokens.TokenStream")
     return it.instantiate(sci, [it.new_list(tokens)], {}, None)
+
+
+def str_parts(av: Any) -> Optional[List[Any]]:
+    """A string value as the flat list of its pieces (constants and non-constant parts), whatever mix of f-strings,
+    concatenation and literals built it; None if it is not recognisably a string construction."""
+    if isinstance(av, Const):
+        return [av] if isinstance(av.value, str) else None
+    if isinstance(av, Term) and av.op in ("fstr", "concat"):
+        out: List[Any] = []
+        for a in av.args:
+            sub = str_parts(a)
+            if sub is None:
+                out.append(a)
+            else:
+                out.extend(sub)
+        # merge adjacent constants
+        merged: List[Any] = []
+        for x in out:
+            if merged and isinstance(x, Const) and isinstance(merged[-1], Const):
+                merged[-1] = Const(merged[-1].value + x.value)
+            else:
+                merged.append(x)
+        return merged
+    if isinstance(av, (Term, SymStr, SymChar)):
+        return [av]
+    return None
